@@ -208,7 +208,7 @@ def run(ctx):
             ctx.broke("translator", f"T5 predicted {r['nb']['kind']} for {res['text']} on {site_src}, real compilation fails", json.dumps(res.get("nb"))[:600])
         elif st == "mismatch":
             cl = classify(r)
-            if cl == "known-flavor" and unflavor_leaf(res.get("nb")) == unflavor_leaf(res.get("py")):
+            if cl == "known-flavor" and nbprobe._close(unflavor_leaf(res.get("nb")), unflavor_leaf(res.get("py"))):
                 continue
             ctx.fail(f"nb:{r['fam']}:{r['name']}:value", f"compiled {res['text']} on {site_src} returns {res.get('nb')}, interpreted {res.get('py')} (T5 predicted agreement)", inp)
         elif st == "py_error":
@@ -305,6 +305,6 @@ def replay(rec):
     inp = f.get("input") or {}
     if not inp.get("program") or not inp.get("operands"):
         return {"site": f.get("site"), "what": f.get("what"), "still_fails": None}
-    p = {"id": 0, "text": inp["program"], "name": "gamma" if (inp.get("scalars") or {}).get("k") == 1.3 else "", "vecs": inp["operands"], "values": inp.get("values") or {}}
+    p = {"id": 0, "text": inp["program"], "name": "", "vecs": inp["operands"], "values": inp.get("values") or {}}
     res = nbprobe.run_probe(p)
     return {"site": f.get("site"), "result": res, "still_fails": res["status"] != "ok"}
